@@ -1,6 +1,6 @@
 """C12 — a CoSi nonce never answers two different challenges (spec/Cosi: NonceAtomic.tla, Nonce.tla,
 MC_Nonce*.tla, Trace_Nonce.tla; harness/inpkg/crypto/zz_verif_nonce_test.go)."""
-import json, os, random
+import json, os, random, threading
 from concurrent.futures import ThreadPoolExecutor
 
 PROPS = ["C12"]
@@ -30,6 +30,8 @@ def run(ctx, args):
 
     pool = ThreadPoolExecutor(max_workers=6)
     futs = [pool.submit(e3, j) for j in reversed(jobs)][::-1]      # the edge emission first: E1 waits for it
+    golock = threading.Lock()                                       # one `go test` at a time (shared overlay files)
+    kfut = pool.submit(kernel_layer, ctx, d, random.Random(ctx.seed + 1), quick, golock)
 
     def collect_e3():
         for j, f in zip(jobs, futs):
@@ -45,12 +47,13 @@ def run(ctx, args):
     edges = futs[-1].result()
     walks = build_walks(edges, rng=rng, n_random=(40 if quick else 400), depth=10)
     ops = [[e["o"] for e in w] for w in walks]
-    hist = int(os.environ.get("VERIF_NONCE_HIST", "0")) or (1200 if quick else 40000)
+    hist = int(os.environ.get("VERIF_NONCE_HIST", "0")) or (800 if quick else 20000)
     cases = os.path.join(ctx.scratch, "cases.json")
     with open(cases, "w") as fh:
         json.dump({"walks": ops, "histories": hist}, fh)
     trace = os.path.join(ctx.scratch, "trace.ndjson")
-    ctx.go_harness("crypto", "^TestVerifNonce$", env={"VERIF_CASES": cases, "VERIF_TRACE": trace}, timeout=1200)
+    with golock:
+        ctx.go_harness("crypto", "^TestVerifNonce$", env={"VERIF_CASES": cases, "VERIF_TRACE": trace}, timeout=1200)
     events = read_ndjson(trace)
     traces = split_traces(events)
     ctx.log("recorded %d executions (%d walks covering %d edges, %d concurrent histories), %d lines"
@@ -90,7 +93,7 @@ def run(ctx, args):
                    for t in traces[:1] + traces[-2:]]
 
     # ---- E2: linearization search by TLC, in shards of whole executions
-    per = 250
+    per = 300 if quick else 1000
     shards = [traces[i:i + per] for i in range(0, len(traces), per)]
     paths = []
     for i, sh in enumerate(shards):
@@ -107,7 +110,7 @@ def run(ctx, args):
             return i, r, None
         return i, r, ctx.tlc_trace(d, "Trace_Nonce.tla", "Trace_Nonce_monitor.cfg", paths[i], timeout=900)
 
-    with ThreadPoolExecutor(max_workers=4) as ex:
+    with ThreadPoolExecutor(max_workers=4 if quick else 6) as ex:
         results = list(ex.map(check, range(len(shards))))
     for i, r, r2 in results:
         sh = shards[i]
@@ -141,7 +144,7 @@ def run(ctx, args):
                        "how": "python3 tools/vcheck.py C12 --replay <this file> re-validates the recorded execution; "
                               "VERIF_SEED=%d python3 tools/vcheck.py C12 --tier %s re-runs the driver" % (ctx.seed, ctx.tier)})
     ctx.log("E2: %d executions accepted by TLC" % ctx.traces)
-    kernel_layer(ctx, d, rng, quick)
+    apply_kernel(ctx, kfut.result())
     collect_e3()
     ctx.assumptions += [
         "cryptographic hardness is assumed: challenges and responses are symbolic in the model (equality classes of the "
@@ -154,8 +157,11 @@ def run(ctx, args):
     ]
 
 
-def kernel_layer(ctx, d, rng, quick):
-    """kernel/cosi.go cosiRetrieveRandom / retainUsedCosiNonce + Response on a real kernel.Chain value."""
+def kernel_layer(ctx, d, rng, quick, golock):
+    """kernel/cosi.go cosiRetrieveRandom / retainUsedCosiNonce + Response on a real kernel.Chain value.
+    Runs beside the crypto layer; returns what has to be added to the evidence (applied by apply_kernel)."""
+    out = {"states": 0, "transitions": 0, "evaluations": 0, "traces": 0, "cov": None, "notes": [], "mismatches": [],
+           "violation": None}
     jobs = [("MC_KNonce_big.cfg", None), ("MC_KNonce_evict.cfg", None),
             ("MC_KNonce_Reach_Refuse.cfg", "ReachRefuse"), ("MC_KNonce_Reach_Evict.cfg", "ReachEvict")]
     with ThreadPoolExecutor(max_workers=4) as ex:
@@ -164,46 +170,62 @@ def kernel_layer(ctx, d, rng, quick):
         for (cfg, inv), f in zip(jobs, futs):
             r = f.result()
             if inv is None:
-                ctx.states += r["distinct"]
-                ctx.transitions += r["generated"]
+                out["states"] += r["distinct"]
+                out["transitions"] += r["generated"]
     walks = build_walks(edges, rng=rng, n_random=(50 if quick else 1000), depth=12)
     cases = os.path.join(ctx.scratch, "kcases.json")
     with open(cases, "w") as fh:
         json.dump({"walks": [[e["o"] for e in w] for w in walks]}, fh)
     trace = os.path.join(ctx.scratch, "ktrace.ndjson")
     try:
-        ctx.go_harness("kernel", "^TestVerifKNonce$", env={"VERIF_CASES": cases, "VERIF_TRACE": trace}, timeout=1200)
+        with golock:
+            ctx.go_harness("kernel", "^TestVerifKNonce$", env={"VERIF_CASES": cases, "VERIF_TRACE": trace}, timeout=1200)
     except Infra as ex:
         # the crypto-level verdict stands on its own; the kernel layer is reported as not run
-        ctx.notes.append("kernel layer (cosiRetrieveRandom) NOT checked in this run: %s" % str(ex)[:300])
-        ctx.cov["kernel_layer"] = "not run"
-        return
+        out["notes"].append("kernel layer (cosiRetrieveRandom) NOT checked in this run: %s" % str(ex)[:300])
+        out["cov"] = "not run"
+        return out
     events = read_ndjson(trace)
     n_exec = sum(1 for e in events if e["ev"] == "KReset")
     steps = sum(1 for e in events if e["ev"] == "KOp")
-    ctx.evaluations += steps
+    out["evaluations"] = steps
     r = ctx.tlc_trace(d, "Trace_KNonce.tla", "Trace_KNonce_full.cfg", trace, timeout=900)
     if r["accepted"]:
-        ctx.traces += n_exec
-        ctx.cov["kernel_layer"] = "%d walks / %d steps covering %d edges of MC_KNonce accepted" % (n_exec, steps, len(edges))
+        out["traces"] = n_exec
+        out["cov"] = "%d walks / %d steps covering %d edges of MC_KNonce accepted" % (n_exec, steps, len(edges))
         ctx.log("E2 kernel layer: %d walks, %d steps accepted by TLC" % (n_exec, steps))
-        return
-    ctx.mismatches.append({"layer": "kernel", "line": r["line"], "invariant": r["invariant"],
-                           "event": events[r["line"] - 1] if r["line"] and r["line"] <= len(events) else None})
+        return out
+    out["mismatches"].append({"layer": "kernel", "line": r["line"], "invariant": r["invariant"],
+                              "event": events[r["line"] - 1] if r["line"] and r["line"] <= len(events) else None})
     r2 = ctx.tlc_trace(d, "Trace_KNonce.tla", "Trace_KNonce_monitor.cfg", trace, timeout=900)
     if r2["accepted"]:
-        ctx.traces += n_exec
-        ctx.cov["kernel_layer"] = "conformance mismatch not forbidden by C12"
-        ctx.notes.append("kernel layer: conformance mismatch not forbidden by C12 (see conformance_mismatches)")
-        return
+        out["traces"] = n_exec
+        out["cov"] = "conformance mismatch not forbidden by C12"
+        out["notes"].append("kernel layer: conformance mismatch not forbidden by C12 (see conformance_mismatches)")
+        return out
     line = r2["line"] or 1
-    first = max(i for i in range(line) if events[i]["ev"] == "KReset") if line <= len(events) else 0
+    first = max(i for i in range(min(line, len(events))) if events[i]["ev"] == "KReset")
     last = next((i for i in range(first + 1, len(events)) if events[i]["ev"] == "KReset"), len(events))
-    ctx.violation("kernel layer: a nonce handed out by cosiRetrieveRandom answered in a way the single-use nonce "
-                  "specification forbids (monitor %s; event %s)"
-                  % (r2["invariant"] or "no enabled action", json.dumps(events[line - 1]) if line <= len(events) else "?"),
-                  {"layer": "kernel", "trace": events[first:last], "failing_index": line - 1 - first,
-                   "spec": "spec/Cosi/Trace_KNonce.tla", "cfg": "Trace_KNonce_monitor.cfg"})
+    out["cov"] = "violation"
+    out["violation"] = ("kernel layer: a nonce handed out by cosiRetrieveRandom answered in a way the single-use nonce "
+                        "specification forbids (monitor %s; event %s)"
+                        % (r2["invariant"] or "no enabled action",
+                           json.dumps(events[line - 1]) if line <= len(events) else "?"),
+                        {"layer": "kernel", "trace": events[first:last], "failing_index": line - 1 - first,
+                         "spec": "spec/Cosi/Trace_KNonce.tla", "cfg": "Trace_KNonce_monitor.cfg"})
+    return out
+
+
+def apply_kernel(ctx, out):
+    ctx.states += out["states"]
+    ctx.transitions += out["transitions"]
+    ctx.evaluations += out["evaluations"]
+    ctx.traces += out["traces"]
+    ctx.cov["kernel_layer"] = out["cov"]
+    ctx.notes += out["notes"]
+    ctx.mismatches += out["mismatches"]
+    if out["violation"]:
+        ctx.violation(*out["violation"])
 
 
 def replay(ctx, d, path):
